@@ -30,7 +30,9 @@ def _s(v):
 
 
 def _fresh(interp, base):
-    return interp.st.fresh_str(base)
+    c = interp.st.fresh_str(base)
+    interp.st.ghost.setdefault('__pieces__', {})[c.get_id()] = c
+    return c
 
 
 # ------------------------------------------------------------------------------ counting measure
@@ -48,9 +50,20 @@ def count_fn(interp, ch):
         interp.st.assume(f(z3.StringVal('')) == 0)
         interp.st.assume(f(z3.StringVal(ch)) == 1)
         # additivity over every concatenation / decomposition performed so far
-        for whole, parts in list(interp.st.ghost.get('__concats__', [])):
-            note_concat(interp, whole, parts, only=ch)
+        replay_concats(interp, lambda whole, parts: note_concat(interp, whole, parts, only=ch))
     return f
+
+
+def replay_concats(interp, fn):
+    """call fn(whole, parts) for every concatenation noted so far, under the merge scopes it was noted in"""
+    st = interp.st
+    saved = st.scopes
+    try:
+        for whole, parts, scopes in list(st.ghost.get('__concats__', [])):
+            st.scopes = list(scopes)
+            fn(whole, parts)
+    finally:
+        st.scopes = saved
 
 
 def _count_facts(interp, f, ch, t):
@@ -69,7 +82,7 @@ def _count_facts(interp, f, ch, t):
 def note_concat(interp, whole, parts, only=None):
     """whole == concat(parts): instantiate additivity of every active counting function."""
     if only is None:
-        interp.st.ghost.setdefault('__concats__', []).append((whole, list(parts)))
+        interp.st.ghost.setdefault('__concats__', []).append((whole, list(parts), tuple(interp.st.scopes)))
         from . import charclass
         charclass.note_concat(interp, whole, parts)
     fns = _count_fns(interp)
@@ -115,6 +128,30 @@ def _cat(pieces):
     return z3.Concat(*pieces)
 
 
+class Dec(list):
+    """A decomposition (list of pieces) of a string term, valid under the merge scopes it was created in
+    (decompositions made while evaluating the right operand of a merged `and`/`or` hold only there)."""
+    scopes = ()
+
+
+def _dec(interp, pieces, *parents):
+    d = Dec(pieces)
+    sc = {x.get_id(): x for x in interp.st.scopes}
+    for par in parents:
+        for x in getattr(par, 'scopes', ()):
+            sc[x.get_id()] = x
+    d.scopes = tuple(sc.values())
+    return d
+
+
+def _visible(interp, dec):
+    sc = getattr(dec, 'scopes', ())
+    if not sc:
+        return True
+    cur = set(x.get_id() for x in interp.st.scopes)
+    return all(x.get_id() in cur for x in sc)
+
+
 def _decomps(interp, t):
     d = interp.st.ghost.setdefault('__decomps__', {})
     ent = d.get(t.get_id())
@@ -123,8 +160,12 @@ def _decomps(interp, t):
         d[t.get_id()] = ent
         fl = _flat_concat(t)
         if len(fl) > 1:
-            ent[1].append(fl)
+            ent[1].append(Dec(fl))
     return ent[1]
+
+
+def _visible_decomps(interp, t):
+    return [d for d in _decomps(interp, t) if _visible(interp, d)]
 
 
 def norm(interp, t, depth=0):
@@ -142,7 +183,10 @@ def norm(interp, t, depth=0):
     ent = d.get(t.get_id())
     if ent is None or not ent[1]:
         return t
-    pieces = ent[1][-1]
+    vis = [x for x in ent[1] if _visible(interp, x)]
+    if not vis:
+        return t
+    pieces = vis[-1]
     return _cat([x for p in pieces for x in _flat_concat(norm(interp, p, depth + 1))])
 
 
@@ -168,23 +212,23 @@ def cut(interp, t, a, base='piece'):
         sv = t.as_string()
         return z3.StringVal(sv[:a.as_long()]), z3.StringVal(sv[a.as_long():])
     decs = _decomps(interp, t)
-    for pieces in decs:
+    for pieces in _visible_decomps(interp, t):
         off = z3.IntVal(0)
         offs = [off]
         for p in pieces:
             off = z3.simplify(off + _len_of(p))
             offs.append(off)
         for j, o in enumerate(offs):
-            if o.eq(a) or (j > 0 and st.must_hold(o == a)):
+            if o.eq(a) or (j > 0 and st.must_hold_lengths(o == a)):
                 return _cat(pieces[:j]), _cat(pieces[j:])
         # inside a piece?
         for j, p in enumerate(pieces):
             if z3.is_string_value(p) and len(p.as_string()) <= 1:
                 continue
-            if st.must_hold(z3.And(offs[j] <= a, a <= offs[j + 1])):
+            if st.must_hold_lengths(z3.And(offs[j] <= a, a <= offs[j + 1])):
                 pa, pb = cut(interp, p, z3.simplify(a - offs[j]), base)
                 refined = pieces[:j] + [x for x in (pa, pb)] + pieces[j + 1:]
-                decs.append(refined)
+                decs.append(_dec(interp, refined, pieces))
                 return _cat(pieces[:j] + [pa]), _cat([pb] + pieces[j + 1:])
     p = _fresh(interp, base)
     q = _fresh(interp, base)
@@ -192,7 +236,7 @@ def cut(interp, t, a, base='piece'):
     st.assume(z3.Length(p) == a)
     if z3.is_int_value(a) and a.as_long() == 1:
         known_single_char(interp, p)
-    decs.append([p, q])
+    decs.append(_dec(interp, [p, q]))
     note_concat(interp, t, [p, q])
     return p, q
 
@@ -244,7 +288,7 @@ def _decompose_free(interp, t, lens, base):
             st.assume(z3.Length(p) == _z(n))
             if isinstance(n, int) and n == 1:
                 known_single_char(interp, p)
-    _decomps(interp, t).append(list(pieces))
+    _decomps(interp, t).append(_dec(interp, list(pieces)))
     note_concat(interp, t, pieces)
     return pieces
 
@@ -259,11 +303,11 @@ def _norm_index(i, L, interp=None):
         return i
     if interp is not None:
         st = interp.st
-        if st.must_hold(i >= 0):
-            if st.must_hold(i <= L):
+        if st.must_hold_lengths(i >= 0):
+            if st.must_hold_lengths(i <= L):
                 return i
             return z3.If(i > L, L, i)
-        if st.must_hold(i < 0) and st.must_hold(i + L >= 0):
+        if st.must_hold_lengths(i < 0) and st.must_hold_lengths(i + L >= 0):
             return i + L
     return z3.If(i < 0, z3.If(i + L < 0, 0, i + L), z3.If(i > L, L, i))
 
@@ -279,9 +323,9 @@ def getitem(interp, s, idx):
         a = z3.IntVal(0) if idx.start is None else z3.simplify(_norm_index(idx.start, L, interp))
         b = z3.simplify(L) if idx.stop is None else z3.simplify(_norm_index(idx.stop, L, interp))
         key = (t.get_id(), a.sexpr(), b.sexpr())
-        if key in cache:
+        if key in cache and _visible(interp, cache[key][2]):
             return cache[key][0]
-        if st.must_hold(b >= a):
+        if st.must_hold_lengths(b >= a):
             mid_len = z3.simplify(b - a)
             a_len = a
         else:
@@ -296,7 +340,7 @@ def getitem(interp, s, idx):
         else:
             p, m, r = decompose(interp, t, [a_len, mid_len, None], 'slice')
             res = wrap(m)
-        cache[key] = (res, t)
+        cache[key] = (res, t, _dec(interp, []))
         return res
     i = _s(idx)
     if st.fork(wrap(z3.And(i >= 0, i < L))):
@@ -310,6 +354,32 @@ def getitem(interp, s, idx):
 
 # ------------------------------------------------------------------------------ searching
 
+def _occurrence(interp, t, u, reverse, base):
+    """t contains u: pieces (p, q) with t == p . u . q where the occurrence is the first (last if reverse) one.
+    For a constant u the constant itself is the middle piece and "no earlier occurrence" is stated as
+    `u not in p . u[:-1]` (`u not in u[1:] . q`), which characterises the position without IndexOf."""
+    st = interp.st
+    if z3.is_string_value(u) and not _has_escape_val(u) and len(u.as_string()) >= 1:
+        uv = u.as_string()
+        p = _fresh(interp, base)
+        q = _fresh(interp, base)
+        st.assume(t == z3.Concat(p, u, q))
+        _decomps(interp, t).append(_dec(interp, [p, u, q]))
+        note_concat(interp, t, [p, u, q])
+        if reverse:
+            st.assume(z3.Not(z3.Contains(_cat([z3.StringVal(uv[1:]), q]), u)))
+        else:
+            st.assume(z3.Not(z3.Contains(_cat([p, z3.StringVal(uv[:-1])]), u)))
+        return p, u, q
+    p, m, q = decompose(interp, t, [None, None, None], base)
+    st.assume(m == u)
+    if reverse:
+        st.assume(z3.LastIndexOf(t, u) == z3.Length(p))
+    else:
+        st.assume(z3.IndexOf(t, u, 0) == z3.Length(p))
+    return p, m, q
+
+
 def _find(interp, s, sub, start, reverse, raise_on_missing):
     st = interp.st
     t = _s(s)
@@ -317,24 +387,21 @@ def _find(interp, s, sub, start, reverse, raise_on_missing):
     if start is not None:
         a = _norm_index(start, z3.Length(t), interp)
         pre, rest = decompose(interp, t, [z3.simplify(a), None], 'from')
+        n_before = len(_decomps(interp, rest)) if z3.is_expr(rest) else 0
         r = _find(interp, wrap(rest), sub, None, reverse, raise_on_missing)
         if isinstance(r, int) and r == -1:
             return -1
+        # the occurrence found in the tail is also a decomposition of the whole string
+        if z3.is_expr(rest):
+            ds = _decomps(interp, rest)
+            if len(ds) > n_before and not (z3.is_string_value(pre) and pre.as_string() == ''):
+                _decomps(interp, t).append(_dec(interp, _flat_concat(pre) + list(ds[-1]), ds[-1]))
         return wrap(_s(r) + z3.Length(pre)) if not (isinstance(r, int) and r == -1) else -1
     if not st.fork(wrap(z3.Contains(t, u))):
         if raise_on_missing:
             raise _pyraise(ValueError('substring not found'))
         return -1
-    p, m, q = decompose(interp, t, [None, None, None], 'find')
-    st.assume(m == u)
-    single = z3.is_string_value(u) and len(u.as_string()) == 1
-    if single:
-        st.assume(z3.Not(z3.Contains(q if reverse else p, u)))
-    else:
-        if reverse:
-            st.assume(z3.LastIndexOf(t, u) == z3.Length(p))
-        else:
-            st.assume(z3.IndexOf(t, u, 0) == z3.Length(p))
+    p, m, q = _occurrence(interp, t, u, reverse, 'find')
     return wrap(z3.Length(p))
 
 
@@ -345,15 +412,7 @@ def _split_once(interp, s, sep, reverse=False):
     u = _s(sep)
     if not st.fork(wrap(z3.Contains(t, u))):
         return False, wrap(t), None
-    p, m, q = decompose(interp, t, [None, None, None], 'split')
-    st.assume(m == u)
-    single = z3.is_string_value(u) and len(u.as_string()) == 1
-    if single:
-        st.assume(z3.Not(z3.Contains(q if reverse else p, u)))
-    elif reverse:
-        st.assume(z3.LastIndexOf(t, u) == z3.Length(p))
-    else:
-        st.assume(z3.IndexOf(t, u, 0) == z3.Length(p))
+    p, m, q = _occurrence(interp, t, u, reverse, 'split')
     return True, wrap(p), wrap(q)
 
 
@@ -553,3 +612,142 @@ def int_of_str(interp, s):
 
 def join_slist(interp, sep, xs):
     raise Unsupported('str.join over symbolic-length sequence (use a spec function / measure)')
+
+
+# ------------------------------------------------------------------------------ forgetting dead pieces
+
+def _consts_of_term(t, acc, seen):
+    todo = [t]
+    while todo:
+        x = todo.pop()
+        i = x.get_id()
+        if i in seen:
+            continue
+        seen.add(i)
+        if z3.is_quantifier(x):
+            todo.append(x.body())
+            continue
+        if z3.is_const(x) and x.decl().kind() == z3.Z3_OP_UNINTERPRETED:
+            acc.add(i)
+        else:
+            todo.extend(x.children())
+
+
+def _consts_of_value(v, acc, seen_terms, seen_objs, depth=0):
+    if depth > 8 or v is None or isinstance(v, (bool, int, str, float, bytes, type)):
+        return
+    if z3.is_expr(v):
+        _consts_of_term(v, acc, seen_terms)
+        return
+    oid = id(v)
+    if oid in seen_objs:
+        return
+    seen_objs.add(oid)
+    if isinstance(v, (SInt, SBool, SStr)):
+        _consts_of_term(v.t, acc, seen_terms)
+        return
+    if isinstance(v, SOpt):
+        _consts_of_term(v.is_none, acc, seen_terms)
+        _consts_of_value(v.val, acc, seen_terms, seen_objs, depth + 1)
+        return
+    if isinstance(v, SChoice):
+        _consts_of_term(v.idx, acc, seen_terms)
+        for a in v.alts:
+            _consts_of_value(a, acc, seen_terms, seen_objs, depth + 1)
+        return
+    if isinstance(v, (list, tuple, set, frozenset)):
+        for x in v:
+            _consts_of_value(x, acc, seen_terms, seen_objs, depth + 1)
+        return
+    if isinstance(v, dict):
+        for x in v.values():
+            _consts_of_value(x, acc, seen_terms, seen_objs, depth + 1)
+        return
+    import types as _types
+    if isinstance(v, (_types.FunctionType, _types.ModuleType, _types.BuiltinFunctionType)):
+        return
+    for attr in ('__dict__',):
+        d = getattr(v, attr, None)
+        if isinstance(d, dict):
+            for x in list(d.values()):
+                _consts_of_value(x, acc, seen_terms, seen_objs, depth + 1)
+    sl = getattr(type(v), '__slots__', None)
+    if sl:
+        for k in type(v).__mro__:
+            for name in getattr(k, '__slots__', ()) or ():
+                try:
+                    _consts_of_value(getattr(v, name), acc, seen_terms, seen_objs, depth + 1)
+                except AttributeError:
+                    pass
+
+
+def forget_dead_pieces(interp):
+    """At a loop head (after the havoc): string pieces introduced by earlier decompositions that no live
+    value refers to any more are existential witnesses of facts about the past (e.g. the position found by
+    a `find` whose result was just havocked).  The conjuncts of the path condition that mention such dead
+    pieces are dropped, and the decomposition registry forgets them, so that new slices of the same string
+    are not related to stale boundaries.  Dropping assumptions only weakens what obligations are proved
+    from: it is sound, and keeps the string solvers away from aligning unrelated decompositions."""
+    st = interp.st
+    pieces = st.ghost.get('__pieces__')
+    if not pieces:
+        return
+    live = set()
+    seen_terms, seen_objs = set(), set()
+    for fr in interp.frame_stack:
+        _consts_of_value(fr.locals, live, seen_terms, seen_objs)
+        for d in fr.enclosing:
+            _consts_of_value(d, live, seen_terms, seen_objs)
+    _consts_of_value(interp.reg.ghost_env, live, seen_terms, seen_objs)
+    _consts_of_value(getattr(interp, 'root_values', None), live, seen_terms, seen_objs)
+    _consts_of_value(st.trace, live, seen_terms, seen_objs)
+    _consts_of_value([v for k, v in st.ghost.items() if not (isinstance(k, str) and k.startswith('__'))
+                      and not isinstance(k, tuple)], live, seen_terms, seen_objs)
+    if interp.collect is not None:
+        _consts_of_value(interp.collect[1], live, seen_terms, seen_objs)
+    # obligations recorded so far keep their own copy of the path condition
+    conj = []
+    for t in list(st.pc) + list(st.scopes):
+        acc = set()
+        _consts_of_term(t, acc, set())
+        conj.append(acc & set(pieces))
+    live_pieces = set(pieces) & live
+    changed = True
+    while changed:
+        changed = False
+        for acc in conj:
+            if acc and (acc & live_pieces) and not acc <= live_pieces:
+                live_pieces |= acc
+                changed = True
+    dead = set(pieces) - live_pieces
+    if not dead:
+        return
+    n_pc = len(st.pc)
+    keep = [t for t, acc in zip(st.pc, conj[:n_pc]) if not (acc & dead)]
+    if len(keep) != n_pc:
+        st.reset_pc(keep)
+    for i in dead:
+        pieces.pop(i, None)
+
+    def dead_term(x):
+        acc = set()
+        _consts_of_term(x, acc, set())
+        return bool(acc & dead)
+
+    decs = st.ghost.get('__decomps__')
+    if decs:
+        for key in list(decs):
+            t, lst = decs[key]
+            if dead_term(t):
+                del decs[key]
+                continue
+            lst[:] = [pcs for pcs in lst if not any(dead_term(p) for p in pcs)]
+    sl = st.ghost.get('__slices__')
+    if sl:
+        for key in list(sl):
+            res, t = sl[key][0], sl[key][1]
+            if dead_term(t) or (isinstance(res, Sym) and dead_term(_s(res))):
+                del sl[key]
+    cc = st.ghost.get('__concats__')
+    if cc:
+        cc[:] = [(w, ps, sc) for (w, ps, sc) in cc if not dead_term(w) and not any(dead_term(p) for p in ps)]
